@@ -131,6 +131,10 @@ func c01Trees(tier string) []*enode {
 		if !isPost(op) {
 			add(mk(op, eConst("2", 2), c01Leaf(0)))
 			add(mk(op, c01Leaf(0), eConst("'x'", "x")))
+			// a string literal and a numeric literal with the same text in one program
+			add(mk(op, eConst("'1'", "1"), eConst("1", 1)))
+			add(mk(op, eConst("1", 1), eConst("'1'", "1")))
+			add(mk(op, eConst("'2.5'", "2.5"), eBin("+", eConst("2.5", float32(2.5)), c01Leaf(0))))
 		}
 	}
 	// S2: two operators, every shape
